@@ -75,9 +75,9 @@ def build_variants(c, names):
     return dict(zip(names, exes))
 
 
-def gen_cfg(c, name, family, D=6, lats="{0,1,3}", dminneg=3, dmax=8, ncfg=1, small="FALSE", wraps="{}"):
-    return vlib.write_cfg(c, name, "CONSTANTS Family = \"%s\"  D = %d  Lats = %s  DMinNeg = %d  DMax = %d  NCfg = %d  Small = %s  Wraps = %s\n"
-                          "SPECIFICATION GSpec\nINVARIANTS Emit\nCHECK_DEADLOCK FALSE\n" % (family, D, lats, dminneg, dmax, ncfg, small, wraps))
+def gen_cfg(c, name, family, D=6, lats="{0,1,3}", dminneg=3, dmax=8, ncfg=1, small="FALSE", wraps="{}", rots="{0}"):
+    return vlib.write_cfg(c, name, "CONSTANTS Family = \"%s\"  D = %d  Lats = %s  DMinNeg = %d  DMax = %d  NCfg = %d  Small = %s  Wraps = %s  Rots = %s\n"
+                          "SPECIFICATION GSpec\nINVARIANTS Emit\nCHECK_DEADLOCK FALSE\n" % (family, D, lats, dminneg, dmax, ncfg, small, wraps, rots))
 
 
 def script_of(beh):
